@@ -826,6 +826,13 @@ pub const SPIKE_DESIGN: [P; 9] = [(0.1, -0.1), (0.6, 0.4), (0.2, 0.6), (0.45, 0.
 pub fn spike_spec(seed: u64) -> TableSpec {
     TableSpec { name: format!("PS9s{seed}"), kind: "PS".into(), seed, n: 9, scale: 1.0, f32: false }
 }
+/// Integer table for single precision: 9 hashed integer points in [-2^24, 2^24]^2 — every coordinate is exactly
+/// representable in f32, but coordinate differences (up to 2^25) are not, so the f32 instantiation has to be
+/// correct with inexact differences while the f64 instantiation computes the same differences exactly.
+/// Fixed seed (see F32_TABLE_SEED).
+pub fn pi_spec() -> TableSpec {
+    TableSpec { name: "PI9s1".into(), kind: "P".into(), seed: F32_TABLE_SEED, n: 9, scale: 33554432.0, f32: true }
+}
 pub fn l_spec(kind: &str) -> TableSpec {
     TableSpec {
         name: kind.into(),
